@@ -34,7 +34,7 @@ def gen_history(run_seed: int, cfg: dict) -> dict:
     faults = cfg.get("faults", True)
     # swarm weights per history
     style = r.choice(["mixed", "mixed", "mixed", "compute_heavy", "reform_heavy", "rewrite_first", "setup_heavy", "fault_heavy" if faults else "mixed"])
-    w = {"SETUP": 2, "COMPUTE": 5, "REPEAT": 2, "REFORM": 2, "REVERT": 1, "REPLACE": 1, "ALIAS": 0.5, "DEEPCOPY": 0.5, "REWRITE": 1, "BADDATA": 0.7}
+    w = {"SETUP": 1.5, "COMPUTE": 6, "REPEAT": 2, "REFORM": 2, "REVERT": 1, "REPLACE": 1.6, "ALIAS": 0.5, "DEEPCOPY": 0.5, "REWRITE": 0.8, "BADDATA": 0.7}
     if style == "compute_heavy":
         w.update(COMPUTE=10, REPEAT=4, REWRITE=0.3)
     elif style == "reform_heavy":
@@ -45,7 +45,7 @@ def gen_history(run_seed: int, cfg: dict) -> dict:
         w.update(BADDATA=3)
     p_abort = 0.0 if not faults else {"fault_heavy": 0.35}.get(style, r.choice([0.0, 0.08, 0.15]))
     p_io = 0.0 if not faults else {"fault_heavy": 0.4}.get(style, r.choice([0.0, 0.1, 0.2]))
-    n_ops = r.randint(4, cfg.get("max_ops", 12))
+    n_ops = r.randint(5, cfg.get("max_ops", 16))
     ops = []
     handles = []
     n_reforms = {}
@@ -66,7 +66,8 @@ def gen_history(run_seed: int, cfg: dict) -> dict:
         op = {"op": "SETUP", "e": e, "date": date or r.choice(dates)}
         hdate[e] = op["date"]
         if r.random() < p_abort:
-            op["abort"] = int(10 ** r.uniform(0, 4.78))
+            # half log-uniform (early windows), half uniform (late windows) over the ~50 k line events of a set-up
+            op["abort"] = int(10 ** r.uniform(0, 4.78)) if r.random() < 0.5 else r.randint(1, 52000)
         elif r.random() < p_io:
             op["iofault"] = {"n": r.randint(1, 159), "kind": r.choice(["EIO", "ENOENT", "EACCES", "SHORT", "SHORT"]), "cut": round(r.uniform(0.05, 0.95), 3)}
         if e not in handles:
@@ -89,7 +90,7 @@ def gen_history(run_seed: int, cfg: dict) -> dict:
         if r.random() < 0.22:
             op["agg"] = r.choice([k for k in userlib.AGG_SPECS if k != "none"])
         if r.random() < p_abort:
-            op["abort"] = int(10 ** r.uniform(0, 5.08))
+            op["abort"] = int(10 ** r.uniform(0, 5.08)) if r.random() < 0.5 else r.randint(1, 105000)
         return op
 
     if style == "rewrite_first":
@@ -130,7 +131,7 @@ def gen_history(run_seed: int, cfg: dict) -> dict:
                 ops.append({"op": "REVERT", "e": e})
                 n_reforms[e] -= 1
         elif k == "REPLACE":
-            variant = r.choice([*userlib.REPLACEMENTS, f"copy:{round(r.random(), 6)}", f"copy:{round(r.random(), 6)}", f"derived:{round(r.random(), 6)}", f"derived:{round(r.random(), 6)}", "module_path", "module_import", "module_object"])
+            variant = r.choice([*userlib.REPLACEMENTS, f"copy:{round(r.random(), 6)}", f"copy:{round(r.random(), 6)}", f"derived:{round(r.random(), 6)}", f"derived:{round(r.random(), 6)}", f"derived:{round(r.random(), 6)}", "module_path", "module_import", "module_object"])
             ops.append({"op": "REPLACE", "e": r.choice(handles), "variant": variant, "mode": r.choice(["dict", "list"])})
         elif k in ("ALIAS", "DEEPCOPY"):
             e2 = f"e{len(handles)}"
@@ -666,6 +667,12 @@ def _do_compute(op, envs, prepared, history, ev) -> int:
         return 0
     data, key, reused = prepared
     targets = resolve_targets(op["targets"], _as_dict(env.functions))
+    # a user who replaced a column looks at that column: request it as a target too
+    watched = sorted({x["name"] for x in env.repl if x.get("name") and not x["variant"].startswith("copy:")})
+    if watched:
+        from gettsim import config
+
+        targets = sorted(set(targets if targets is not None else config.DEFAULT_TARGETS) | set(watched))
     ev["data"] = key
     ev["reused"] = reused
     ev["targets"] = targets
